@@ -213,6 +213,10 @@ def replay_in_fresh_interpreter(path):
 def check(prop, tier, verif_seed, workers=16, budget=None, wall_cap=None, write_evidence=True, quiet=False):
     t0 = time.time()
     scen = load_scenario(prop)
+    if write_evidence and os.path.isdir(REPLAY_DIR):
+        for fn in os.listdir(REPLAY_DIR):
+            if fn.startswith(prop + "-"):
+                os.remove(os.path.join(REPLAY_DIR, fn))
     n_runs = budget or scen.budgets[tier]
     wall_cap = wall_cap or scen.wall_caps.get(tier, 150)
     deadline = t0 + wall_cap
@@ -265,7 +269,7 @@ def check(prop, tier, verif_seed, workers=16, budget=None, wall_cap=None, write_
         withcase = [g for g in group if g["case"] is not None]
         withcase.sort(key=lambda g: (g["size"], g["case"]["index"]))
         g = withcase[0]
-        if len(reported) < 6:
+        if len(reported) < int(os.environ.get("HGSIM_MAX_REPORT", "6")):
             small, tries = minimise(scen, g["case"], sig, budget_s=scen.minimise_s)
             res = scen.execute(small)
             v = res["violation"]
